@@ -195,6 +195,10 @@ theorem C14_link_hooks_missing_on_pinned : ∃ acts, (run Skeleton.pinned init a
     ⟨0, .cancel⟩, ⟨0, .failReads⟩, ⟨0, .reqReadFails⟩, ⟨0, .respReadFails⟩, ⟨0, .setupLoopsDone⟩,
     ⟨0, .setupUnregister⟩], by decide⟩
 
+/-- M4 draws a fresh identifier for every link. In the source the identifier is assigned once, from a UUID, by one of the setup goroutine's own statements — never taken from the link's context (checked against the regenerated skeleton): a link opened from inside a handler of another link does not take over that link's identifier. The library only reads the hook structs it is handed. -/
+theorem C14_identifier_has_one_fresh_source :
+    Skeleton.current.rgPerLinkRemoteId = true ∧ Skeleton.current.hooksNeverWritten = true := by decide
+
 end Panrpc.Rg
 
 #print axioms Panrpc.Rg.C14_enumeration_eq_live
@@ -208,3 +212,4 @@ end Panrpc.Rg
 #print axioms Panrpc.Rg.C14_disconnect_reachable
 #print axioms Panrpc.Rg.C14_disconnect_reachable_enumerated
 #print axioms Panrpc.Rg.C14_link_hooks_missing_on_pinned
+#print axioms Panrpc.Rg.C14_identifier_has_one_fresh_source
